@@ -337,7 +337,7 @@ fn gen_msg_c07(rng: &mut Rng, tier: Tier) -> msg::MsgScn {
             _ => {}
         }
     }
-    let plain = |b: Base, f: Fmt| Case { base: b, faults: vec![], wire: vec![], fmt: f, session: None, resolver: Resolver::Directory, kb_enc: KbEnc::Absent, extra: vec![], expand: None, hold_s: 0, escapes: false };
+    let plain = |b: Base, f: Fmt| Case { base: b, faults: vec![], wire: vec![], fmt: f, session: None, resolver: Resolver::Directory, kb_enc: KbEnc::Absent, extra: vec![], expand: None, hold_s: 0, escapes: false, extra_raw: None };
     let bases: Vec<Base> = (0..s.pres.len().min(3)).map(Base::Pres).chain(std::iter::once(Base::Cred(0))).collect();
     let key = s.issuers[0].key.clone();
     let alg = s.issuers[0].alg.clone().unwrap_or_else(|| "ES256".into());
@@ -390,6 +390,39 @@ fn gen_msg_c07(rng: &mut Rng, tier: Tier) -> msg::MsgScn {
             c.session = Some((Some("a".into()), Some("n".into())));
         }
         s.cases.push(c);
+    }
+    // holders built from byzantine credentials, asked for claims named by whatever strings occur
+    // in the (possibly ill-formed) disclosures, with every selector shape
+    let byz_creds: Vec<(usize, Vec<String>)> = s
+        .creds
+        .iter()
+        .enumerate()
+        .filter_map(|(i, c)| match c {
+            msg::CredSpec::Byz { disclosures, .. } => {
+                let mut names = Vec::new();
+                for d in disclosures {
+                    if let Ok(Value::Array(a)) = serde_json::from_str::<Value>(d) {
+                        for e in a.iter().skip(1) {
+                            if let Some(t) = e.as_str() {
+                                names.push(t.to_string());
+                            }
+                        }
+                    }
+                }
+                Some((i, names))
+            }
+            _ => None,
+        })
+        .collect();
+    for (ci, names) in byz_creds.iter().take(12) {
+        if names.is_empty() || !rng.chance(1, 2) {
+            continue;
+        }
+        let mut sel = Map::new();
+        for n in names.iter().take(6) {
+            sel.insert(n.clone(), rng.pick(&[json!({"country": true}), json!({"x": {"y": true}}), json!([true]), json!([[true], {"a": true}]), json!(true), json!({})]).clone());
+        }
+        s.pres.push(msg::PresSpec::Holder { cred: *ci, selection: sel, kb: None });
     }
     // byzantine structures that stress recursion: a digest chain through N nested disclosures,
     // deeply nested plain containers, arrays full of placeholders
